@@ -114,7 +114,7 @@ def stored_types(d):
 
 
 def execute(arg):
-    graph, policy, writable, case, tpl = arg
+    graph, policy, writable, case, tpl = arg[:5]
     d = tempfile.mkdtemp(prefix="verif_c11_")
     d2 = tempfile.mkdtemp(prefix="verif_c11b_") if writable == 2 else None
     res = dict(case=case, bad=[])
@@ -206,6 +206,11 @@ def execute(arg):
                     if d2 is not None and stored_types(d2) != set(case["saves"]):
                         res["bad"].append(f"{proc}: second frontend stored {sorted(stored_types(d2))}, expected {sorted(case['saves'])}")
                 except Exception as e:  # noqa
+                    if "Timeout" in type(e).__name__ and not arg[-1] == "retry":
+                        # a starved thread on a busy machine looks like a hang: the whole case once more (a real hang shows again)
+                        r2 = execute(tuple(arg) + ("retry",))
+                        r2["retried_after_timeout"] = True
+                        return r2
                     res["bad"].append(f"the run on {proc} raised {type(e).__name__}: {str(e)[:100]}")
         return res
     finally:
